@@ -277,11 +277,16 @@ pub fn run(args: &Args, tier: &str, seed: u64, backend: &str) -> Report {
         };
         let request = gen_request(&mut rng, plen);
         let mut resp = gen_response(&mut rng);
-        resp.data = match rng.below(4) {
+        resp.data = match if i % 16 == 5 || i % 16 == 10 { 3 } else { rng.below(4) } {
             0 => vec![],
             1 => vec![3],
             _ => {
-                let n = rng.range(1, 100_000);
+                // some responses carry a document beyond 2^20 octets (thorough: beyond 2^24), both clients, all framings
+                let n = if i % 16 == 5 || i % 16 == 10 {
+                    if thorough && i % 128 == 10 { 17_000_000 } else { rng.range(1_100_000, 3_000_000) }
+                } else {
+                    rng.range(1, 100_000)
+                };
                 rng.bytes(n)
             }
         };
